@@ -117,3 +117,47 @@ pub fn hang_class(g: &Inner, d: usize) -> HangClass {
     };
     HangClass { place, interleaving, live_workers: live }
 }
+
+/// Free dispatchers that hang in the blocking send: helper threads dispatch no-ops; the worker each one
+/// spawns drains the queued senders first. (A helper can get stuck itself when the rescued job panics and
+/// kills that worker, or when its own worker times out first: the next helper frees it.)
+/// Returns true when `done` holds and every helper has returned, false after `max_ms`.
+pub fn rescue(
+    sess: &crate::ctl::Sess,
+    pool: &compio_driver::AsyncifyPool,
+    done: impl Fn(&Inner) -> bool,
+    max_ms: u64,
+) -> bool {
+    use std::time::{Duration, Instant};
+    let mut helpers: Vec<std::thread::JoinHandle<bool>> = vec![];
+    let t0 = Instant::now();
+    let mut last_spawn = Instant::now();
+    loop {
+        let ok = {
+            let g = sess.lock();
+            done(&g)
+        };
+        if ok && !helpers.is_empty() && helpers.iter().all(|h| h.is_finished()) {
+            return true;
+        }
+        if t0.elapsed() > Duration::from_millis(max_ms) {
+            return false;
+        }
+        if helpers.len() < 12 && (helpers.is_empty() || last_spawn.elapsed() > Duration::from_millis(300)) {
+            let (s2, p2) = (sess.clone(), pool.clone());
+            helpers.push(std::thread::spawn(move || {
+                crate::ctl::bind_dispatcher(&s2);
+                let t0 = Instant::now();
+                while t0.elapsed() < Duration::from_secs(5) {
+                    if p2.dispatch(|| {}).is_ok() {
+                        return true;
+                    }
+                    std::thread::yield_now();
+                }
+                false
+            }));
+            last_spawn = Instant::now();
+        }
+        std::thread::sleep(Duration::from_millis(3));
+    }
+}
